@@ -86,20 +86,25 @@ CHECKS = {
 
 # Extensions added after the first build (appended to the level text of the check).
 EXTRA = {
+ "C02": "Part-count dimension: structured locations of 6..12 (thorough 20) parts (ascending/descending joins, orders, complements, alternating strands, outer markers) x every index x guest lengths 1..2 x {Insert, Embed}.",
+ "C04": "Part-count dimension: structured locations of 6..12 (thorough 20) parts x every rotation in [-L,L] and the pairs (n,-n), (n,1).",
+ "C05": "Part-count dimension: structured locations of 6..14 (thorough 24) parts.",
+ "C06": "Part-count dimension: structured locations of 6..16 (thorough 30) parts and values with coordinates of up to seven digits.",
+ "C10": "Part-count dimension: structured locations of 6..10 (thorough 16) parts: insert;delete and embed;delete at every index, cut sets of 1..3 positions.",
  "C01": "Also: the operations undo-insert (delete exactly what an insertion put in) and gap deletion in the program alphabet, so that locations an edit leaves unreduced are written and read back.",
- "C03": "The judged slice is never the first slice of its parent: two earlier slices of the same GenBank record are taken first and must read the same afterwards, as must the parent.",
+ "C03": "The judged slice is never the first slice of its parent: two earlier slices of the same GenBank record are taken first and must read the same afterwards, as must the parent. Reference sets none of which survives the window. Part-count dimension: structured locations of 6..10 (thorough 16) parts x every deletion of 1..3 residues and every window inside [0,L].",
  "C07": "A stream cut inside a record must be reported as an error (no clean end after k records). History independence of the seven string parsers: every token string up to length 4-5 evaluated in ascending and in descending order in two fresh processes must get the same answer, and every string of a curated set must get the same answer in a fresh process as after the whole set (the shortest offending pair is reported). The checker runs under a supervisor process: a runtime fatal error (out of memory, stack exhaustion) raised by the code under test is located with a serial journalled re-run, confirmed in a fresh process and reported as a VIOLATION.",
- "C08": "Size dimension: structured regions of up to 12 (quick) / 20 (thorough) segments x three length patterns x four orientation patterns, listed and complemented, x all modifiers. Locator tables include features that agree in 5' end, 3' end and spliced length but differ inside.",
- "C09": "Every piece of the circular inversion must be one stretch of the circle: a forward segment, or (at most once) [a,n)+[0,b).",
+ "C08": "Size dimension: structured regions of up to 12 (quick) / 20 (thorough) segments x three length patterns x four orientation patterns, listed and complemented, x all modifiers; regions with zero-length (between-site) segments at their ends, on one strand, x all modifiers (known finding KF-zero-length-end-segment). Locator tables include features that agree in 5' end, 3' end and spliced length but differ inside.",
+ "C09": "Every piece of the circular inversion must be one stretch of the circle: a forward segment, or (at most once) [a,n)+[0,b). Segment-count dimension: structured collections of 4..40 (thorough 120) segments (disjoint, abutting, overlapping chain, nested, alternating strands; ascending, descending, interleaved).",
  "C11": "Five feature-table shapes (incl. a guest / a host without features). Size dimension: the host table padded with 1..70, ~122, ~250 and ~506 extra features and the host residues grown along the size ladder (to 20000 quick / 300000 thorough) under every one-step program and 70 two-step programs.",
  "C12": "Size dimension: generated tables of 1..140 (thorough 300) classes plus a record-spanning feature, qualifier values with a common prefix of up to 5000 characters, five cut patterns. The gts repair command on every stream of 1..3 generated records with tables of different sizes: every output record equals the library's Repair of that record alone.",
  "C13": "Quick tier bodies now include 40000 bytes incompressible (compressed size above the 32 KiB inflate window and io.Copy buffer) and 120000 bytes compressible (thorough: + 300 KB); every finished entry is read back with ten buffer sizes from 1 byte to 1 MiB and with io.Copy.",
- "C14": "Alphabet extended (~245 invocations) by inputs whose output exceeds 32 KiB, output formats taken from the extension of the -o path, and option values chosen to collide under lossy keys (same first byte of a multi-byte separator, common prefix, case, length).",
- "C15": "Locators are built afresh for every record in the oracle (what is located in record k must not depend on the records before it); the record menu includes three- and four-part spliced regions with features inside their later parts.",
+ "C14": "Alphabet extended (~245 invocations) by inputs whose output exceeds 32 KiB, output formats taken from the extension of the -o path, and option values chosen to collide under lossy keys (same first byte of a multi-byte separator, common prefix, case, length). Fault events inside the explored histories: killed runs (an invocation with more than 4 KiB of output is killed while blocked on a pipe nobody reads and leaves a real unfinalised entry) in histories [kill k; j; j|k] and [j; kill k; k; j|k], and unwritable output (standard output on /dev/full) in histories [full i; i; i], [full i; full i; i], [i; full i; i] for every cached subcommand.",
+ "C15": "Locators are built afresh for every record in the oracle (what is located in record k must not depend on the records before it); the record menu includes three- and four-part spliced regions with features inside their later parts and an odd-arity complement join. Every invocation is run on the whole multi-record stream and on every record as a stream of its own (each record is then the last of its stream).",
  "C16": "Above the contiguous range, every length of the size ladder (v-1,v,v+1 around powers of two and ten and the multiples of 10 and 60 next to them) up to 1.2 million (quick) / 12 million (thorough) residues, i.e. index widths up to 7 / 8 digits.",
- "C17": "Descriptions with line breaks (written on one line), generated GenBank records with DEFINITIONs of 1..6 lines converted to FASTA, the size ladder up to 150000 / 3000000 residues, and streams whose second header starts at every offset around the multiples of 4096 up to 65536 (every alignment of a record boundary with the reader's block size).",
+ "C17": "Descriptions with line breaks (written on one line), generated GenBank records with DEFINITIONs of 1..6 lines converted to FASTA, the size ladder up to 150000 / 3000000 residues, and streams whose second header starts at every offset around the multiples of 4096 up to 65536 (every alignment of a record boundary with the reader's block size). Residues over 32..126 (with the blank) for counts up to 300.",
  "C18": "Size dimension: periodic sequences of every length of the size ladder (to 140000 quick / 2200000 thorough) against short queries, and periodic queries of every length 4..1100 and of the ladder up to 5000 / 70000.",
- "C19": "Fork histories of FeatureSlice.Insert: two different features inserted into one table built by 0..9 insertions (every capacity the table passes through) - both results and the table itself are judged. The gts select command with every list of 1..2 (some 3) selectors from a menu of ten x {-v} x {-s both, forward, reverse}: the non-source features of the output are exactly the accepted ones in table order.",
+ "C19": "Fork histories of FeatureSlice.Insert: two different features inserted into one table built by 0..9 insertions (every capacity the table passes through) - both results and the table itself are judged. The gts select command with every list of 1..2 (some 3) selectors from a menu of ten x {-v} x {-s both, forward, reverse}: the non-source features of the output are exactly the accepted ones in table order. Selectors whose regexp contains '=' over features whose values contain '='.",
 }
 NOT_BUILT = {}
 
